@@ -1,2 +1,296 @@
-(* placeholder while the correspondence check is being brought up *)
-From Eupsv Require Import Base.Base Model.Graph Model.Db Model.Remove.
+(* C14 - remove deletes exactly what was asked and never something still needed.
+   Property theorems only; proofs are short appeals to Proofs/Remove*.v.
+
+   Vocabulary.  [remove_fixed fuel w c st n v recursive check] is Eups.remove(n, v, recursive, checkRecursive)
+   of the code with the fixes C14-remove-skip-undeclared and C14-remove-follow-once (Model/Remove.v; the
+   pinned tree is [remove_pinned]); it returns the outcome AND the state, because an exception leaves behind
+   whatever was done before it.  A state [st] is the reader's view of the database [rdb st] (Model/Db.v:
+   [a_decl a s n v f] = (directory, table) of product n version v flavor f in stack s, [a_tag a s n t f] = the
+   version tag t names) and the set of paths [rfs st] under the stack root.  [w] is the resolved dependency
+   graph of Model/Graph.v (C13): what every table line denotes in the database as it is before the command.
+   [c] holds the flavor, the name of the default product and force.
+
+   [asked w n v recursive q]: q is the product named on the command line or, with recursive, a declared
+   product that its table files reach in one or more lines ([reach_plus], the relation of C13's walk_complete:
+   exactly what getDependentProducts lists - see asked_is_the_listing).
+   [doomed w c a n v recursive s n' v' f']: (s, n', v', f') is the declaration that is removed for the asked
+   product n' v': flavor of the instance, first stack on the path that declares it ([home]).
+
+   Standing hypotheses: [wf_world w] (C13: a line is resolved to a declared version, an unresolved line names
+   no declared version), [default_undeclared w c] (the default product implicitProducts is not declared, as in
+   every stack the checks build), the target is declared.  [coherent w c a]: what the world calls declared is
+   found in the database.  [wf_dirs a]: installation directories of different declarations are pairwise
+   non-nested; [dirs_present]: the directories of the asked products exist. *)
+From Eupsv Require Import Base.Base Base.BaseLemmas Model.Graph Model.Db Model.Remove
+     Proofs.GraphLib Proofs.GraphWalk Proofs.GraphListing Proofs.GraphOrder
+     Proofs.DbLib Proofs.Db Proofs.DbInv
+     Proofs.RemoveLib Proofs.RemoveDestroy Proofs.RemoveCollect Proofs.RemoveMain Proofs.RemoveCheck.
+Open Scope string_scope.
+
+(* ------------------------------------------------------------------ exactly what was asked *)
+
+(* When the command ends normally: the declarations that are gone are exactly the doomed ones (the target
+   and, with recursive, its whole dependency closure - on every graph: cycles, shared sub-trees, several
+   versions of one product, unresolved dependencies); a tag survives exactly when the version it names
+   survives; the paths that are gone are exactly those inside the (real) directories of the asked products. *)
+Theorem removes_exactly fuel w c st n v recursive check st' :
+  wf_world w -> default_undeclared w c -> declared w n v = true ->
+  remove_fixed fuel w c st n v recursive check = (Ok tt, st') ->
+  (forall s n' v' f', doomed w c (rdb st) n v recursive s n' v' f' -> a_decl (rdb st') s n' v' f' = None) /\
+  (forall s n' v' f', ~ doomed w c (rdb st) n v recursive s n' v' f' ->
+     a_decl (rdb st') s n' v' f' = a_decl (rdb st) s n' v' f') /\
+  (forall s n' t f' v', a_tag (rdb st) s n' t f' = Some v' -> doomed w c (rdb st) n v recursive s n' v' f' ->
+     a_tag (rdb st') s n' t f' = None) /\
+  (forall s n' t f', (forall v', a_tag (rdb st) s n' t f' = Some v' -> ~ doomed w c (rdb st) n v recursive s n' v' f') ->
+     a_tag (rdb st') s n' t f' = a_tag (rdb st) s n' t f') /\
+  (forall x, In x (rfs st') <->
+     In x (rfs st) /\
+     ~ exists q dir, asked w n v recursive q /\ product_dir c (rdb st) q = Some dir /\ placeholder dir = false /\
+                     under dir x = true).
+Proof. exact (remove_exact fuel w c st n v recursive check st'). Qed.
+Print Assumptions removes_exactly.
+
+(* the asked set is the target plus what C13's listing (getDependentProducts) holds, restricted to declared
+   products: the dependency closure as listed *)
+Theorem asked_is_the_listing fuel w n v l q :
+  length w < fuel -> dependent_products fuel w (n, Some v, true) false = Ok l ->
+  (asked w n v true q <-> q = (n, Some v, true) \/ (In q (map enode l) /\ dnode w q)).
+Proof.
+  intros Hf Hl. destruct (listing_plain w (n, Some v, true) fuel Hf) as [l' [E HL]].
+  rewrite Hl in E. inversion E. subst l'. unfold asked. split.
+  - intros [->|[_ [R Dq]]]; [left; reflexivity|].
+    destruct (node_eq_dec q (n, Some v, true)) as [->|N]; [left; reflexivity|]. right. split; [apply HL; auto|exact Dq].
+  - intros [->|[I Dq]]; [left; reflexivity|]. right. apply HL in I as [_ R]. auto.
+Qed.
+Print Assumptions asked_is_the_listing.
+
+(* ------------------------------------------------------------------ never something still needed *)
+
+(* With the in-use check and without force: if a product that would be deleted (d) is reached through the
+   table files from a declared product that would remain (u), the command is refused and the state is the
+   one it started from.  ([uses_index] is Eups.uses(None) of C13; its success is C13's domain.) *)
+Theorem refuses_when_needed fuel w c st n v recursive idx d u :
+  wf_world w -> default_undeclared w c -> declared w n v = true -> length w + 2 <= fuel ->
+  uses_index fuel w = Ok idx -> rc_force c = false ->
+  asked w n v recursive d ->
+  In u (map fst w) -> ~ asked w n v recursive (pnode u) -> reach_plus w (pnode u) d ->
+  remove_fixed fuel w c st n v recursive true = (Err Refused, st).
+Proof. exact (remove_refuses_when_needed fuel w c st n v recursive idx d u). Qed.
+Print Assumptions refuses_when_needed.
+
+(* a refusal, whenever it happens, has changed nothing *)
+Theorem refusal_changes_nothing fuel w c st n v recursive check st' :
+  wf_world w -> default_undeclared w c -> declared w n v = true ->
+  remove_fixed fuel w c st n v recursive check = (Err Refused, st') -> st' = st.
+Proof. exact (refusal_keeps_state fuel w c st n v recursive check st'). Qed.
+Print Assumptions refusal_changes_nothing.
+
+(* the command refuses only when the in-use check is on and force is off.  (The converse of
+   refuses_when_needed is NOT a theorem and not demanded by the property: the code excludes only the product
+   named on the command line from the users, so it also refuses when the only other users are themselves being
+   removed - over_cautious_refusal_observed below.) *)
+Theorem refusal_only_with_check fuel w c st n v recursive check st' :
+  wf_world w -> default_undeclared w c -> declared w n v = true -> length w + 2 <= fuel ->
+  (check = true -> exists idx, uses_index fuel w = Ok idx) ->
+  remove_fixed fuel w c st n v recursive check = (Err Refused, st') -> check = true /\ rc_force c = false.
+Proof. exact (RemoveMain.refusal_only_with_check fuel w c st n v recursive check st'). Qed.
+Print Assumptions refusal_only_with_check.
+
+(* every error is raised before the first write: no exception leaves a partly removed stack behind (the
+   pinned tree fails this: partial_removal_refuted_pinned) *)
+Theorem error_changes_nothing fuel w c st n v recursive check e st' :
+  wf_world w -> default_undeclared w c -> declared w n v = true ->
+  coherent w c (rdb st) -> wf_dirs (rdb st) -> dirs_present w c st n v recursive ->
+  remove_fixed fuel w c st n v recursive check = (Err e, st') -> st' = st.
+Proof. exact (error_keeps_state fuel w c st n v recursive check e st'). Qed.
+Print Assumptions error_changes_nothing.
+
+(* without the in-use check, or with force, the command ends normally on every graph: the fuel |w| + 2 is
+   enough whatever cycles the tables form, and removes_exactly then says what has gone *)
+Theorem remove_completes fuel w c st n v recursive check :
+  wf_world w -> default_undeclared w c -> declared w n v = true -> length w + 2 <= fuel ->
+  (check = true -> exists idx, uses_index fuel w = Ok idx) ->
+  check = false \/ rc_force c = true ->
+  coherent w c (rdb st) -> wf_dirs (rdb st) -> dirs_present w c st n v recursive ->
+  exists st', remove_fixed fuel w c st n v recursive check = (Ok tt, st').
+Proof. exact (RemoveMain.remove_completes fuel w c st n v recursive check). Qed.
+Print Assumptions remove_completes.
+
+(* ------------------------------------------------------------------ frame *)
+
+(* Whatever the outcome (normal end, refusal, any error): a declaration that is not doomed is as before, a tag
+   that names no doomed version is as before, no path appears, and a path that lies in none of the asked
+   products' directories stays. *)
+Theorem frame fuel w c st n v recursive check res st' :
+  wf_world w -> default_undeclared w c -> declared w n v = true ->
+  remove_fixed fuel w c st n v recursive check = (res, st') ->
+  (forall s n' v' f', ~ doomed w c (rdb st) n v recursive s n' v' f' ->
+     a_decl (rdb st') s n' v' f' = a_decl (rdb st) s n' v' f') /\
+  (forall s n' t f', (forall v', a_tag (rdb st) s n' t f' = Some v' -> ~ doomed w c (rdb st) n v recursive s n' v' f') ->
+     a_tag (rdb st') s n' t f' = a_tag (rdb st) s n' t f') /\
+  (forall x, In x (rfs st') -> In x (rfs st)) /\
+  (forall x, In x (rfs st) ->
+     (forall q dir, asked w n v recursive q -> product_dir c (rdb st) q = Some dir -> placeholder dir = false ->
+                    under dir x = false) ->
+     In x (rfs st')).
+Proof. exact (remove_frame fuel w c st n v recursive check res st'). Qed.
+Print Assumptions frame.
+
+(* with pairwise non-nested installation directories: the whole directory of every surviving declaration
+   is untouched, whatever the outcome *)
+Theorem frame_directories fuel w c st n v recursive check res st' s0 m u f0 rs :
+  wf_world w -> default_undeclared w c -> declared w n v = true -> wf_dirs (rdb st) ->
+  remove_fixed fuel w c st n v recursive check = (res, st') ->
+  a_decl (rdb st) s0 m u f0 = Some rs -> placeholder (fst rs) = false ->
+  ~ doomed w c (rdb st) n v recursive s0 m u f0 ->
+  forall x, under (fst rs) x = true -> (In x (rfs st') <-> In x (rfs st)).
+Proof. exact (remove_frame_dirs fuel w c st n v recursive check res st' s0 m u f0 rs). Qed.
+Print Assumptions frame_directories.
+
+(* ------------------------------------------------------------------ witnesses *)
+
+Definition ed (n : string) (v r : option string) (o : bool) : edge :=
+  mkEdge (lit n) (option_map lit v) (option_map lit r) o.
+(* every table ends with the silent optional dependency on the undeclared default product *)
+Definition imp : edge := ed "implicitProducts" None None true.
+Definition pr (n v : string) (es : list edge) : (str * str) * list edge := ((lit n, lit v), es ++ [imp]).
+Definition nd (n v : string) : node := (lit n, Some (lit v), true).
+Definition S0 : str := lit "S".
+Definition linux : str := lit "Linux64".
+Definition pdir (n v : string) : str := lit "/S/" ++ lit n ++ lit "/" ++ lit v.
+Definition dk (n v : string) : dkey * vrec :=
+  ((S0, lit n, lit v, linux), (pdir n v, pdir n v ++ lit "/ups/" ++ lit n ++ lit ".table")).
+Definition tg (n t v : string) : dkey * str := ((S0, lit n, lit t, linux), lit v).
+Definition paths (n v : string) : list str :=
+  [lit "/S/" ++ lit n; pdir n v; pdir n v ++ lit "/ups"; pdir n v ++ lit "/ups/" ++ lit n ++ lit ".table"].
+Definition conf (force : bool) : rconf := mkRC linux (lit "implicitProducts") force.
+
+(* a 1 needs b, c and the optional ghost (not installed); b and c both need d; the bystander x needs d too.
+   d carries two tags. *)
+Definition w_ex : world :=
+  [ pr "a" "1" [ed "b" None (Some "1") false; ed "ghost" None None true; ed "c" (Some "1") (Some "1") false];
+    pr "b" "1" [ed "d" None (Some "1") false];
+    pr "c" "1" [ed "d" None (Some "1") true];
+    pr "d" "1" [];
+    pr "x" "1" [ed "d" (Some "1") (Some "1") false] ].
+Definition st_ex : rstate :=
+  mkR (mkAdb [S0] [dk "a" "1"; dk "b" "1"; dk "c" "1"; dk "d" "1"; dk "x" "1"]
+             [tg "a" "current" "1"; tg "b" "current" "1"; tg "c" "current" "1"; tg "d" "current" "1";
+              tg "d" "stable" "1"; tg "x" "current" "1"])
+      (paths "a" "1" ++ paths "b" "1" ++ paths "c" "1" ++ paths "d" "1" ++ paths "x" "1").
+
+(* the hypotheses of the theorems are inhabited by this state ... *)
+Example hypotheses_inhabited :
+  wf_world w_ex /\ default_undeclared w_ex (conf false) /\ coherent w_ex (conf false) (rdb st_ex) /\
+  wf_dirs (rdb st_ex) /\ dirs_present w_ex (conf false) st_ex (lit "a") (lit "1") true /\
+  declared w_ex (lit "a") (lit "1") = true /\ length w_ex + 2 <= 7 /\
+  (exists idx, uses_index 7 w_ex = Ok idx) /\
+  asked w_ex (lit "a") (lit "1") true (nd "d" "1") /\ ~ asked w_ex (lit "a") (lit "1") true (nd "x" "1").
+Proof.
+  assert (Hwf : wf_world w_ex) by (apply wf_world_by_computation; vm_compute; reflexivity).
+  split; [exact Hwf|].
+  split; [apply default_undeclared_by_computation; vm_compute; reflexivity|].
+  split; [apply coherent_by_computation; vm_compute; reflexivity|].
+  split; [apply wf_dirs_by_computation; vm_compute; reflexivity|].
+  split; [apply dirs_present_by_computation; vm_compute; reflexivity|].
+  split; [vm_compute; reflexivity|]. split; [vm_compute; repeat constructor|].
+  split; [eexists; vm_compute; reflexivity|].
+  assert (D : declared w_ex (lit "a") (lit "1") = true) by (vm_compute; reflexivity).
+  split.
+  - apply (proj2 (asked_dpath _ _ _ _ _ Hwf D)). right. split; [reflexivity|].
+    apply dp_step with (q := nd "b" "1"); [vm_compute; auto|]. apply dp_step with (q := nd "d" "1"); [vm_compute; auto|]. apply dp_refl.
+  - intro A.
+    (* the completed recursive removal keeps x: were x asked, removes_exactly would have it gone *)
+    destruct (removes_exactly 7 w_ex (conf false) st_ex (lit "a") (lit "1") true false
+                (snd (remove_fixed 7 w_ex (conf false) st_ex (lit "a") (lit "1") true false)) Hwf) as [G _].
+    + apply default_undeclared_by_computation; vm_compute; reflexivity.
+    + exact D.
+    + vm_compute. reflexivity.
+    + specialize (G S0 (lit "x") (lit "1") linux). assert (Hd : doomed w_ex (conf false) (rdb st_ex) (lit "a") (lit "1") true S0 (lit "x") (lit "1") linux).
+      { split; [reflexivity|]. split; [exact A|]. vm_compute. reflexivity. }
+      specialize (G Hd). vm_compute in G. discriminate G.
+Qed.
+
+(* ... on which remove -R a 1 without the in-use check removes a, b, c, d and keeps x with its tag and tree;
+   with the check it is refused because x, which stays, needs d; with the check and force it goes through *)
+Example remove_recursive_example :
+  (let '(r, s) := remove_fixed 7 w_ex (conf false) st_ex (lit "a") (lit "1") true false in
+   (r, adecls (rdb s), atags (rdb s), rfs s))
+  = (Ok tt, [dk "x" "1"], [tg "x" "current" "1"],
+     [lit "/S/a"; lit "/S/b"; lit "/S/c"; lit "/S/d"] ++ paths "x" "1")
+  /\ remove_fixed 7 w_ex (conf false) st_ex (lit "a") (lit "1") true true = (Err Refused, st_ex)
+  /\ fst (remove_fixed 7 w_ex (conf true) st_ex (lit "a") (lit "1") true true) = Ok tt
+  /\ remove_fixed 7 w_ex (conf false) st_ex (lit "d") (lit "1") false true = (Err Refused, st_ex).
+Proof. split; [vm_compute; reflexivity|]. split; [vm_compute; reflexivity|]. split; vm_compute; reflexivity. Qed.
+
+(* D12 on the pinned tree: a 1 needs b and c, both need d.  Without the check (or with force) the removal list
+   is a, b, d, implicitProducts-stub, c: a, b and d are undeclared and deleted, undeclare(stub) raises
+   ProductNotFound, and c - which needs the deleted d - is left behind.  With the fix all four go. *)
+Definition w_diamond : world :=
+  [ pr "a" "1" [ed "b" None (Some "1") false; ed "c" None (Some "1") false];
+    pr "b" "1" [ed "d" None (Some "1") false];
+    pr "c" "1" [ed "d" None (Some "1") false];
+    pr "d" "1" [] ].
+Definition st_diamond : rstate :=
+  mkR (mkAdb [S0] [dk "a" "1"; dk "b" "1"; dk "c" "1"; dk "d" "1"]
+             [tg "a" "current" "1"; tg "b" "current" "1"; tg "c" "current" "1"; tg "d" "current" "1"])
+      (paths "a" "1" ++ paths "b" "1" ++ paths "c" "1" ++ paths "d" "1").
+
+Example partial_removal_refuted_pinned :
+  (let '(r, s) := remove_pinned 6 w_diamond (conf false) st_diamond (lit "a") (lit "1") true false in
+   (r, adecls (rdb s), atags (rdb s), rfs s))
+  = (Err NotFound, [dk "c" "1"], [tg "c" "current" "1"],
+     [lit "/S/a"; lit "/S/b"] ++ paths "c" "1" ++ [lit "/S/d"])
+  /\ (let '(r, s) := remove_fixed 6 w_diamond (conf false) st_diamond (lit "a") (lit "1") true false in
+      (r, adecls (rdb s), atags (rdb s)))
+     = (Ok tt, [], []).
+Proof. split; vm_compute; reflexivity. Qed.
+
+(* an optional dependency that is not installed: the pinned tree raises ProductNotFound while collecting
+   (nothing can be removed recursively); with the fix the dependency is skipped *)
+Example uninstalled_optional_refuted_pinned :
+  remove_pinned 7 w_ex (conf false) st_ex (lit "a") (lit "1") true false = (Err NotFound, st_ex)
+  /\ fst (remove_fixed 7 w_ex (conf false) st_ex (lit "a") (lit "1") true false) = Ok tt.
+Proof. split; vm_compute; reflexivity. Qed.
+
+(* a dependency cycle: the pinned tree recurses for ever (RecursionError, here any fuel runs out); a product
+   that depends on another version of itself: the pinned recursion is cut by name and c stays although a 1
+   reaches it ([remove true false] = only the first fix).  With both fixes everything asked goes. *)
+Definition w_cycle : world :=
+  [ pr "a" "1" [ed "b" None (Some "1") false]; pr "b" "1" [ed "a" None (Some "1") false; ed "c" None (Some "1") false];
+    pr "c" "1" [] ].
+Definition st_cycle : rstate :=
+  mkR (mkAdb [S0] [dk "a" "1"; dk "b" "1"; dk "c" "1"] []) (paths "a" "1" ++ paths "b" "1" ++ paths "c" "1").
+Definition w_samename : world :=
+  [ pr "a" "1" [ed "a" (Some "2") (Some "2") false]; pr "a" "2" [ed "c" None (Some "1") false]; pr "c" "1" [] ].
+Definition st_samename : rstate :=
+  mkR (mkAdb [S0] [dk "a" "1"; dk "a" "2"; dk "c" "1"] [tg "a" "current" "2"])
+      (paths "a" "1" ++ paths "a" "2" ++ paths "c" "1").
+
+Example recursion_refuted_pinned :
+  remove true false 50 w_cycle (conf false) st_cycle (lit "a") (lit "1") true false = (Err OutOfFuel, st_cycle)
+  /\ (let '(r, s) := remove_fixed 5 w_cycle (conf false) st_cycle (lit "a") (lit "1") true false in (r, adecls (rdb s)))
+     = (Ok tt, [])
+  /\ (let '(r, s) := remove true false 5 w_samename (conf false) st_samename (lit "a") (lit "1") true false in
+      (r, adecls (rdb s))) = (Ok tt, [dk "c" "1"])
+  /\ (let '(r, s) := remove_fixed 5 w_samename (conf false) st_samename (lit "a") (lit "1") true false in
+      (r, adecls (rdb s), atags (rdb s))) = (Ok tt, [], []).
+Proof. split; [vm_compute; reflexivity|]. split; [vm_compute; reflexivity|]. split; vm_compute; reflexivity. Qed.
+
+(* observed behaviour, not a defect: in the chain a -> b -> c the check finds that c is used by b and refuses
+   remove -R a 1, although b is being removed too and nothing that stays needs anything; nothing changes *)
+Definition w_chain : world :=
+  [ pr "a" "1" [ed "b" None (Some "1") false]; pr "b" "1" [ed "c" None (Some "1") false]; pr "c" "1" [] ].
+Example over_cautious_refusal_observed :
+  remove_fixed 5 w_chain (conf false) st_cycle (lit "a") (lit "1") true true = (Err Refused, st_cycle)
+  /\ forall u, In u (map fst w_chain) -> asked w_chain (lit "a") (lit "1") true (pnode u).
+Proof.
+  split; [vm_compute; reflexivity|].
+  assert (Hwf : wf_world w_chain) by (apply wf_world_by_computation; vm_compute; reflexivity).
+  assert (D : declared w_chain (lit "a") (lit "1") = true) by (vm_compute; reflexivity).
+  intros u [<-|[<-|[<-|[]]]]; apply (proj2 (asked_dpath _ _ _ _ _ Hwf D)).
+  - left. reflexivity.
+  - right. split; [reflexivity|]. apply dp_step with (q := nd "b" "1"); [vm_compute; auto|]. apply dp_refl.
+  - right. split; [reflexivity|]. apply dp_step with (q := nd "b" "1"); [vm_compute; auto|].
+    apply dp_step with (q := nd "c" "1"); [vm_compute; auto|]. apply dp_refl.
+Qed.
